@@ -23,7 +23,7 @@ ME = 'tally.merchant_engine.'
 MP = 'tally.modifier_parser.'
 DateOrd = UF('date.toordinal', ObjS, IntS)
 sv = z3.StringVal
-replace_all = UF('str.replace_all', StrS, StrS, StrS, StrS)
+replace_all = UF('py.str.replace', StrS, StrS, StrS, StrS)
 
 S1, S2 = 111.25, 222.5                       # sentinel amounts
 D1, D2 = '2001-02-03', '2004-05-06'          # sentinel ISO dates
